@@ -141,23 +141,23 @@ func init() {
 			call: func(w *world, a *rlwe.Ciphertext, b any, out *rlwe.Ciphertext, arg [3]int) (*rlwe.Ciphertext, error) {
 				return w.bgv.RotateRowsNew(a)
 			}},
-		&opDesc{name: "ApplyEvaluationKey", scheme: "bgv", aDegs: d1, natural: natSame,
+		&opDesc{impl: "rlwe.ApplyEvaluationKey", name: "ApplyEvaluationKey", scheme: "bgv", aDegs: d1, natural: natSame,
 			call: func(w *world, a *rlwe.Ciphertext, b any, out *rlwe.Ciphertext, arg [3]int) (*rlwe.Ciphertext, error) {
 				return nil, w.bgv.ApplyEvaluationKey(a, w.swk, out)
 			}},
-		&opDesc{name: "ApplyEvaluationKeyNew", scheme: "bgv", aDegs: d1, isNew: true,
+		&opDesc{impl: "rlwe.ApplyEvaluationKey", name: "ApplyEvaluationKeyNew", scheme: "bgv", aDegs: d1, isNew: true,
 			call: func(w *world, a *rlwe.Ciphertext, b any, out *rlwe.Ciphertext, arg [3]int) (*rlwe.Ciphertext, error) {
 				return w.bgv.ApplyEvaluationKeyNew(a, w.swk)
 			}},
-		&opDesc{name: "InnerSum", scheme: "bgv", aDegs: d1, natural: natSame, gal: galInnerSum,
+		&opDesc{impl: "rlwe.PartialTracesSum", name: "InnerSum", scheme: "bgv", aDegs: d1, natural: natSame, gal: galInnerSum,
 			call: func(w *world, a *rlwe.Ciphertext, b any, out *rlwe.Ciphertext, arg [3]int) (*rlwe.Ciphertext, error) {
 				return nil, w.bgv.InnerSum(a, arg[0], arg[1], out)
 			}},
-		&opDesc{name: "RotateAndAdd", scheme: "bgv", aDegs: d1, natural: natSame, gal: galInnerSum,
+		&opDesc{impl: "rlwe.PartialTracesSum", name: "RotateAndAdd", scheme: "bgv", aDegs: d1, natural: natSame, gal: galInnerSum,
 			call: func(w *world, a *rlwe.Ciphertext, b any, out *rlwe.Ciphertext, arg [3]int) (*rlwe.Ciphertext, error) {
 				return nil, w.bgv.RotateAndAdd(a, arg[0], arg[1], out)
 			}},
-		&opDesc{name: "Replicate", scheme: "bgv", aDegs: d1, natural: natSame, gal: galReplicate,
+		&opDesc{impl: "rlwe.PartialTracesSum", name: "Replicate", scheme: "bgv", aDegs: d1, natural: natSame, gal: galReplicate,
 			call: func(w *world, a *rlwe.Ciphertext, b any, out *rlwe.Ciphertext, arg [3]int) (*rlwe.Ciphertext, error) {
 				return nil, w.bgv.Replicate(a, arg[0], arg[1], out)
 			}},
@@ -183,14 +183,18 @@ var chainShapes = []struct {
 	{[]int{50, 50}, 2},
 }
 
-func poolSpec(t *rapid.T, allowCI bool, ntt *bool, sizeShift int) h.RLWESpec {
+func poolSpec(t *rapid.T, allowCI bool, ntt *bool, sizeShift int, needP ...bool) h.RLWESpec {
 	maxLogN := 6
 	if h.Thorough() {
 		maxLogN = 7
 	}
 	var s h.RLWESpec
 	s.LogN = rapid.IntRange(4, maxLogN).Draw(t, "logN")
-	sh := chainShapes[rapid.IntRange(0, len(chainShapes)-1).Draw(t, "chainShape")]
+	shapes := []int{0, 1, 2, 3, 4, 5}
+	if len(needP) > 0 && needP[0] {
+		shapes = []int{2, 3, 3} // chains with an auxiliary modulus (hoisted rotations) and 3-4 Q primes (circuit depth)
+	}
+	sh := chainShapes[shapes[rapid.IntRange(0, len(shapes)-1).Draw(t, "chainShape")]]
 	if allowCI {
 		s.CI = rapid.IntRange(0, 2).Draw(t, "ringType") == 2
 	}
@@ -225,8 +229,8 @@ func poolSpec(t *rapid.T, allowCI bool, ntt *bool, sizeShift int) h.RLWESpec {
 	return s
 }
 
-func genBGVSpec(t *rapid.T) *h.BGVSpec {
-	s := poolSpec(t, false, &tru, 0)
+func genBGVSpec(t *rapid.T, needP ...bool) *h.BGVSpec {
+	s := poolSpec(t, false, &tru, 0, needP...)
 	used := map[uint64]bool{}
 	for _, q := range append(append([]uint64{}, s.Q...), s.P...) {
 		used[q] = true
@@ -272,16 +276,16 @@ func fixArgs(op string, arg [3]int) [3]int {
 	return arg
 }
 
-func genEvalCase(t *rapid.T, scheme string) EvalCase {
+func genEvalCase(t *rapid.T, scheme string, only ...string) EvalCase {
 	c := EvalCase{Scheme: scheme}
 	var n, nQ int
 	bfvOnly := false
 	switch baseScheme(scheme) {
 	case "bgv":
-		c.BGV = genBGVSpec(t)
+		c.BGV = genBGVSpec(t, len(only) > 0)
 		n, nQ = c.BGV.N(), len(c.BGV.Q)
 	case "ckks":
-		c.CKKS = genCKKSSpec(t)
+		c.CKKS = genCKKSSpec(t, len(only) > 0)
 		n, nQ = c.CKKS.N(), len(c.CKKS.Q)
 	case "rlwe":
 		c.RLWE = genRLWESpec(t)
@@ -302,9 +306,15 @@ func genEvalCase(t *rapid.T, scheme string) EvalCase {
 		// only the methods whose behaviour depends on the ScaleInvariant flag are targets (all others are history)
 		targets = []string{"Mul", "MulNew", "MulRelin", "MulRelinNew"}
 	}
+	if len(only) > 0 {
+		targets = only
+	}
 	c.Op = targets[rapid.IntRange(0, len(targets)-1).Draw(t, "op")]
 	o := lookupOp(scheme, c.Op)
 	c.A = genCtSpec(t, "a", o.aDegs, nQ-1)
+	if len(only) > 0 && c.A.Drop > 1 {
+		c.A.Drop = 0 // circuits need depth
+	}
 	c.Arg = fixArgs(c.Op, genArgs(t, "arg", n))
 	c.Alias = rapid.IntRange(0, 4).Draw(t, "alias")
 	if o.binary {
@@ -332,8 +342,15 @@ func genEvalCase(t *rapid.T, scheme string) EvalCase {
 				c.B.Kind = r
 			}
 		}
+		if o.kinds != nil {
+			c.B.Kind = o.kinds[rapid.IntRange(0, len(o.kinds)-1).Draw(t, "bKindSpecial")]
+		}
 		c.B.Val = rapid.IntRange(0, 7).Draw(t, "bVal")
 		c.B.Len = []int{0, 1, n / 2, 3}[rapid.IntRange(0, 3).Draw(t, "bLen")]
+		if c.B.Kind == "lt" {
+			// the shape of the transformation is a function of the method arguments (Galois keys are generated from them)
+			c.B.Val, c.B.Len, c.B.Deg = c.Arg[2], c.Arg[1], 0
+		}
 	}
 	c.Out.New = rapid.Bool().Draw(t, "outNew")
 	c.Out.CtSpec = genCtSpec(t, "out", []int{1, 2}, nQ-1)
@@ -347,6 +364,9 @@ func genEvalCase(t *rapid.T, scheme string) EvalCase {
 		hk := "ct"
 		if ho.binary {
 			kinds := kindsOf(scheme)
+			if ho.kinds != nil {
+				kinds = ho.kinds
+			}
 			hk = kinds[rapid.IntRange(0, len(kinds)-1).Draw(t, fmt.Sprintf("h%d_kind", i))]
 			if c.CKKS != nil && c.CKKS.CI {
 				if r, ok := map[string]string{"complex128": "float64", "bigcomplex": "bigfloat", "vecC": "vecF", "vecBC": "vecBF"}[hk]; ok {
